@@ -27,12 +27,15 @@ Fixpoint filter_map {A B} (f : A -> option B) (l : list A) : list B :=
   match l with [] => [] | x :: r => match f x with Some y => y :: filter_map f r | None => filter_map f r end end.
 
 (* (supported modes in first-appearance order, min, max, toggle, separate swing) *)
+(* the remote ids whose swing is a command of its own: a fact of the protocol, written down here and not read from the sources *)
+Definition separate_swing_ids : list string := ["ELEC7022"; "ZM079055"; "ZM079065"; "ZM079049"]%string.
+
 Definition spec_capabilities (s : irset) : list string * Z * Z * bool * bool :=
   let keys := map w_key (ir_waves s) in
   let sup := nodup_s (filter_map (fun k => mode_of_code (firstn 2 k)) keys) in
   let temps := filter_map two_digit_temp keys in
   (sup, fold_right Z.min 100 temps, fold_right Z.max (-100) temps, ir_onoff s =? 1,
-   existsb (fun x => beq (ir_id s) (s2l x)) special_swing_ids).
+   existsb (fun x => beq (ir_id s) (s2l x)) separate_swing_ids).
 
 Inductive spec_cmd := Code (text : bytes) | Refused | Silent.
 
